@@ -290,7 +290,7 @@ pub fn run(ctx: &Ctx, report: &mut Report) {
         answers equal the same server's answer to the request without TSIG. Non-trivial = signed request by outcome class (classes)."
         .into();
     report.assumptions.push("wall clock: the server's time reading lies between the harness's readings before and after the call".into());
-    run_prop(ctx, report, PropSpec { name: "tsig-server", cases: ctx.tier.pick(12_000, 250_000), max_shrink_iters: 3000 }, case_strategy, oracle);
+    run_prop(ctx, report, PropSpec { name: "tsig-server", cases: ctx.tier.pick(48_000, 600_000), max_shrink_iters: 3000 }, case_strategy, oracle);
 }
 
 pub fn replay(_check: &str, case: &serde_json::Value) -> Verdict {
